@@ -12,9 +12,11 @@
 #else
 #define STORAGE(s) ((Elem *) (s)->m_data.m_storage.m_data)
 #endif
+#define END(s)     (DATA (s) + SZ (s))
+#define CAPEND(s)  (DATA (s) + CAP (s))
 
 /* p is the start of a live allocator block of exactly n elements (as a memory-model fact) */
-#define HEAPBLK(p, n) ((p) != 0 && __CPROVER_DYNAMIC_OBJECT (p) && OFF (p) == 0 && __CPROVER_OBJECT_SIZE (p) == (unsigned long) (n) * ESZ)
+#define HEAPBLK(p, n) ((p) != 0 && __CPROVER_DYNAMIC_OBJECT (p) && OFF (p) == 0 && __CPROVER_OBJECT_SIZE (p) == ((unsigned long) (n) << ESZ_LOG2))
 
 /* representation invariant (C02) for a container whose inline capacity is N */
 #define WF_(s, N) \
@@ -24,11 +26,14 @@
 #define WF(s)  WF_ (s, CAP_N)
 #define WFM(s) WF_ (s, CAP_M)
 
+/* all watched cells satisfy P */
+#define ALLW(P) (P (0) && P (1) && P (2))
+
 /* element lifetimes (C03): cells below size () are live, cells between size () and capacity () are raw */
 #define CELL1(s, i) \
-  (IMPLIES (IN_RANGE (WP[i], DATA (s), SZ (s)), WL[i] != 0) \
-   && IMPLIES (IN_RANGE (WP[i], DATA (s), CAP (s)) && IDX (WP[i], DATA (s)) >= SZ (s), WL[i] == 0))
-#define CELLS(s) (CELL1 (s, 0) && CELL1 (s, 1) && CELL1 (s, 2) && CELL1 (s, 3))
+  (IMPLIES (IN_RANGE (WP[i], DATA (s), SZ (s)), LIVE (i)) \
+   && IMPLIES (IN_RANGE (WP[i], DATA (s), CAP (s)) && OFF (WP[i]) >= OFF (DATA (s)) + (SZ (s) << ESZ_LOG2), RAW (i)))
+#define CELLS(s) (CELL1 (s, 0) && CELL1 (s, 1) && CELL1 (s, 2))
 
 /* allocation ledger (C04): a heap buffer is a live block of exactly capacity () elements of the container's allocator */
 #define BLOCK_(s, N) IMPLIES (WB == DATA (s) && CAP (s) != (unsigned long) (N), WBL != 0 && WBN == CAP (s) && WBA == AID (s))
@@ -38,7 +43,54 @@
 #define INV(s)  (WF (s) && CELLS (s) && BLOCK (s))
 #define INVM(s) (WFM (s) && CELLS (s) && BLOCKM (s))
 
-/* watched cell i is the cell at index k of the container */
-#define AT(s, i, k) (WP[i] == DATA (s) + (k))
+/* ---- ranges of cells ------------------------------------------------------------------------ */
+#define RANGE_OK(first, last) (SAMEOBJ ((first), (last)) && OFF (first) <= OFF (last) && ALIGNED (OFF (last) - OFF (first)))
+#define RLEN(first, last)     DIVESZ (OFF (last) - OFF (first))
+#define RBYTES(first, last)   (OFF (last) - OFF (first))
+#define LIVE_BETWEEN(lo, hi)  (IMPLIES (IN_PTRS (WP[0], lo, hi), LIVE (0)) && IMPLIES (IN_PTRS (WP[1], lo, hi), LIVE (1)) && IMPLIES (IN_PTRS (WP[2], lo, hi), LIVE (2)))
+#define RAW_BETWEEN(lo, hi)   (IMPLIES (IN_PTRS (WP[0], lo, hi), RAW (0)) && IMPLIES (IN_PTRS (WP[1], lo, hi), RAW (1)) && IMPLIES (IN_PTRS (WP[2], lo, hi), RAW (2)))
+#define MOVED_FROM(lo, hi)    (IMPLIES (IN_PTRS (WP[0], lo, hi), WS[0] == S_MF) && IMPLIES (IN_PTRS (WP[1], lo, hi), WS[1] == S_MF) && IMPLIES (IN_PTRS (WP[2], lo, hi), WS[2] == S_MF))
+#define NOT_MOVED_FROM(lo, hi) (IMPLIES (IN_PTRS (WP[0], lo, hi), WS[0] != S_MF) && IMPLIES (IN_PTRS (WP[1], lo, hi), WS[1] != S_MF) && IMPLIES (IN_PTRS (WP[2], lo, hi), WS[2] != S_MF))
+/* ghost state of watched cell i is what it was on entry (of the function / of the loop) */
+#define SAME_CELL(i)    (WS[i] == __CPROVER_old (WS[i]))
+#define SAME_CELL_LE(i) (WS[i] == __CPROVER_loop_entry (WS[i]))
+#define FRAME_OUTSIDE(lo, hi) \
+  (IMPLIES (!IN_PTRS (WP[0], lo, hi), SAME_CELL (0)) && IMPLIES (!IN_PTRS (WP[1], lo, hi), SAME_CELL (1)) && IMPLIES (!IN_PTRS (WP[2], lo, hi), SAME_CELL (2)))
+#define FRAME_OUTSIDE_LE(lo, hi) \
+  (IMPLIES (!IN_PTRS (WP[0], lo, hi), SAME_CELL_LE (0)) && IMPLIES (!IN_PTRS (WP[1], lo, hi), SAME_CELL_LE (1)) && IMPLIES (!IN_PTRS (WP[2], lo, hi), SAME_CELL_LE (2)))
+#define IN_EITHER(p, lo1, hi1, lo2, hi2) (IN_PTRS (p, lo1, hi1) || IN_PTRS (p, lo2, hi2))
+#define FRAME_OUTSIDE2(lo1, hi1, lo2, hi2) \
+  (IMPLIES (!IN_EITHER (WP[0], lo1, hi1, lo2, hi2), SAME_CELL (0)) && IMPLIES (!IN_EITHER (WP[1], lo1, hi1, lo2, hi2), SAME_CELL (1)) \
+   && IMPLIES (!IN_EITHER (WP[2], lo1, hi1, lo2, hi2), SAME_CELL (2)))
+#define FRAME_OUTSIDE2_LE(lo1, hi1, lo2, hi2) \
+  (IMPLIES (!IN_EITHER (WP[0], lo1, hi1, lo2, hi2), SAME_CELL_LE (0)) && IMPLIES (!IN_EITHER (WP[1], lo1, hi1, lo2, hi2), SAME_CELL_LE (1)) \
+   && IMPLIES (!IN_EITHER (WP[2], lo1, hi1, lo2, hi2), SAME_CELL_LE (2)))
+#define UNCHANGED_BETWEEN(lo, hi) \
+  (IMPLIES (IN_PTRS (WP[0], lo, hi), SAME_CELL (0)) && IMPLIES (IN_PTRS (WP[1], lo, hi), SAME_CELL (1)) && IMPLIES (IN_PTRS (WP[2], lo, hi), SAME_CELL (2)))
+#define UNCHANGED_BETWEEN_LE(lo, hi) \
+  (IMPLIES (IN_PTRS (WP[0], lo, hi), SAME_CELL_LE (0)) && IMPLIES (IN_PTRS (WP[1], lo, hi), SAME_CELL_LE (1)) && IMPLIES (IN_PTRS (WP[2], lo, hi), SAME_CELL_LE (2)))
+
+/* ---- value flow between watched cells ----------------------------------------------------------
+ * Skolemised statements name one destination cell WP[0], one source cell WP[1] and the tracked
+ * temporary WP[2]; value-flow clauses are stated for the role pairs (0<-1), (0<-2), (2<-1). */
+#define FILLED1(d, s, lo, hi, src)    IMPLIES (IN_PTRS (WP[d], lo, hi) && (src) == WP[s], WS[d] == __CPROVER_old (WS[s]))
+#define FILLED(lo, hi, src)           (FILLED1 (0, 1, lo, hi, src) && FILLED1 (0, 2, lo, hi, src))
+#define FILLED1_LE(d, s, lo, hi, src) IMPLIES (IN_PTRS (WP[d], lo, hi) && (src) == WP[s], WS[d] == __CPROVER_loop_entry (WS[s]))
+#define FILLED_LE(lo, hi, src)        (FILLED1_LE (0, 1, lo, hi, src) && FILLED1_LE (0, 2, lo, hi, src))
+/* the watched destination cell in [dlo, dhi) holds what the watched source cell at the same index of [slo, shi) held */
+#define SAME_INDEX(d, s, dlo, slo)    (OFF (WP[d]) - OFF (dlo) == OFF (WP[s]) - OFF (slo))
+#define COPIED(dlo, dhi, slo, shi)    IMPLIES (IN_PTRS (WP[0], dlo, dhi) && IN_PTRS (WP[1], slo, shi) && SAME_INDEX (0, 1, dlo, slo), WS[0] == __CPROVER_old (WS[1]))
+#define COPIED_LE(dlo, dhi, slo, shi) IMPLIES (IN_PTRS (WP[0], dlo, dhi) && IN_PTRS (WP[1], slo, shi) && SAME_INDEX (0, 1, dlo, slo), WS[0] == __CPROVER_loop_entry (WS[1]))
+/* the cell p holds a live element / is raw (if watched) */
+#define CELL_LIVE(p) (IMPLIES ((p) == WP[0], LIVE (0)) && IMPLIES ((p) == WP[1], LIVE (1)) && IMPLIES ((p) == WP[2], LIVE (2)))
+#define CELL_RAW(p)  (IMPLIES ((p) == WP[0], RAW (0)) && IMPLIES ((p) == WP[1], RAW (1)) && IMPLIES ((p) == WP[2], RAW (2)))
+/* [lo, hi) and [lo2, hi2) do not overlap; p is not a cell of [lo, hi) */
+#define DISJOINT(lo, hi, lo2, hi2) (!SAMEOBJ (lo, lo2) || OFF (hi) <= OFF (lo2) || OFF (hi2) <= OFF (lo))
+#define NOT_IN(p, lo, hi)          (!SAMEOBJ (p, lo) || OFF (p) + ESZ <= OFF (lo) || OFF (p) >= OFF (hi))
+
+/* ghost objects a cell operation may change */
+#define GHOST_CELLS __CPROVER_object_whole (WS), used_kinds
+#define GHOST_EXC   exc, exc_kind
+#define GHOST_BLOCK WBL, WBN, WBA, alloc_calls, dealloc_calls
 
 #endif
